@@ -56,12 +56,28 @@ thread_local! {
     static FOREIGN: RefCell<Vec<u32>> = const { RefCell::new(Vec::new()) };
     static CANCEL_IN_FLIGHT: Cell<bool> = const { Cell::new(false) };
     static CANCEL_NOW: Cell<bool> = const { Cell::new(false) };
+    static PREEMPT_IN_FLIGHT: Cell<bool> = const { Cell::new(false) };
 }
 
 /// Ask the executor to drop the current activity at its next `Pending` inside a delegated store
 /// call (i.e. while the call is in flight on a foreign thread). Cleared by `clear_cancel_requests`.
 pub fn request_cancel_in_flight() {
     CANCEL_IN_FLIGHT.with(|c| c.set(true));
+}
+
+/// Ask the executor to hand control back to the scheduler at the current activity's next `Pending`
+/// inside a delegated store call, *leaving the call in flight* on its foreign thread. Exactly one
+/// step of another activity (seeded choice; none if nothing else is runnable) then overlaps the
+/// call; after it the executor waits for the call's answer, and the activity is schedulable again.
+/// This is the legal schedule "another task ran while my COMMIT was being executed", which the
+/// seam-to-seam stepping otherwise never produces.
+pub fn request_preempt_in_flight() {
+    PREEMPT_IN_FLIGHT.with(|c| c.set(true));
+}
+
+/// Withdraw a preemption request that was not used (the call answered without a `Pending`).
+pub fn clear_preempt_request() {
+    PREEMPT_IN_FLIGHT.with(|c| c.set(false));
 }
 
 /// Ask the executor to drop the current activity as soon as this poll returns `Pending`.
@@ -72,6 +88,7 @@ pub fn request_cancel_now() {
 pub fn clear_cancel_requests() -> bool {
     let a = CANCEL_IN_FLIGHT.with(|c| c.replace(false));
     let b = CANCEL_NOW.with(|c| c.replace(false));
+    PREEMPT_IN_FLIGHT.with(|c| c.set(false));
     a || b
 }
 
@@ -137,6 +154,8 @@ pub struct Activity {
     policy: Policy,
     hint_blocked: Option<Box<dyn Fn() -> bool>>,
     pub polls: u64,
+    /// Suspended inside a delegated call that is still in flight (see `request_preempt_in_flight`).
+    in_flight: bool,
 }
 
 #[derive(Debug, PartialEq, Eq)]
@@ -159,6 +178,9 @@ pub struct StepExec {
     acts: Vec<Activity>,
     pub watchdog: Duration,
     pub fallback: Duration,
+    /// Called after the step that overlapped a call left in flight, right before the executor
+    /// waits for that call's answer (a harness that holds the foreign thread releases it here).
+    pub overlap_release: Option<Box<dyn Fn()>>,
 }
 
 impl Default for StepExec {
@@ -174,7 +196,7 @@ impl StepExec {
         // fallback_classifications == 0): they are generous because a reply of a SQLite worker
         // thread can take seconds when the machine is overloaded, and classifying such a call as
         // "parked" lets other activities run into resources the in-flight call still holds.
-        StepExec { acts: Vec::new(), watchdog: Duration::from_secs(60), fallback: Duration::from_secs(20) }
+        StepExec { acts: Vec::new(), watchdog: Duration::from_secs(60), fallback: Duration::from_secs(20), overlap_release: None }
     }
 
     pub fn add(&mut self, name: &str, policy: Policy, fut: impl Future<Output = ()> + 'static) -> usize {
@@ -186,6 +208,7 @@ impl StepExec {
             policy,
             hint_blocked: None,
             polls: 0,
+            in_flight: false,
         });
         self.acts.len() - 1
     }
@@ -219,21 +242,46 @@ impl StepExec {
             .collect()
     }
 
+    /// True while `act` is suspended inside a delegated call that is still in flight.
+    pub fn is_in_flight(&self, act: usize) -> bool {
+        self.acts[act].in_flight
+    }
+
     /// As `step`, but without first yielding to the runtime: tasks the code under test spawned
     /// (e.g. the rollback task of a dropped permit) do not get polled before the chosen activity.
     pub async fn step_without_runtime_turn(&mut self) -> Result<Step, Stall> {
-        let runnable = self.runnable();
-        if runnable.is_empty() {
-            return Ok(Step::Quiescent);
-        }
-        let i = runnable[ctx::choose("sched", runnable.len())];
-        self.run_activity(i).await
+        self.pick_and_run().await
     }
 
     /// Run one scheduling step (choice stream picks among runnable activities).
     pub async fn step(&mut self) -> Result<Step, Stall> {
         // Let runtime-spawned helpers (sqlx return_to_pool, permit rollback) make progress.
         tokio::task::yield_now().await;
+        self.pick_and_run().await
+    }
+
+    async fn pick_and_run(&mut self) -> Result<Step, Stall> {
+        let in_flight = (0..self.acts.len()).find(|i| self.acts[*i].fut.is_some() && self.acts[*i].in_flight);
+        if let Some(a) = in_flight {
+            // One step of another activity overlaps the call in flight. Whether the answer has
+            // already arrived is timing; the activity itself is therefore not a candidate.
+            let others: Vec<usize> = self.runnable().into_iter().filter(|i| *i != a).collect();
+            let r = if others.is_empty() {
+                None
+            } else {
+                let i = others[ctx::choose("sched.overlap", others.len())];
+                Some(self.run_activity(i).await?)
+            };
+            if let Some(f) = &self.overlap_release {
+                f();
+            }
+            let flag = self.acts[a].flag.clone();
+            if tokio::time::timeout(self.watchdog, WaitWoken(flag)).await.is_err() {
+                return Err(Stall { act: a, name: self.acts[a].name.clone() });
+            }
+            self.acts[a].in_flight = false;
+            return Ok(r.unwrap_or(Step::Ran { act: a, finished: false }));
+        }
         let runnable = self.runnable();
         if runnable.is_empty() {
             return Ok(Step::Quiescent);
@@ -271,6 +319,10 @@ impl StepExec {
                     // A raised ForeignGuard wins over a (possibly stale) seam park recorded earlier
                     // in the same poll, e.g. by the other branch of a `select!`.
                     let in_foreign_call = foreign_depth(i) > 0;
+                    if in_foreign_call && PREEMPT_IN_FLIGHT.with(|c| c.replace(false)) {
+                        self.acts[i].in_flight = true;
+                        return Ok(Step::Ran { act: i, finished: false });
+                    }
                     if !in_foreign_call && PARKED.with(|p| p.get()) {
                         return Ok(Step::Ran { act: i, finished: false });
                     }
